@@ -212,8 +212,8 @@ func cmdFX(args []string) {
 				hung++
 			}
 			w.line(fmt.Sprintf(`{"in":%s,"want":%s,"got":%s,"panic":%s,"hung":%d,"leak":%d,"frame":%s}`, mustJSON(c["in"]), strsJSON(want), strsJSON(r.out), jq(r.pan), hv, r.leak, jq(r.frame)))
-			if hung > 20 {
-				break
+			if hung > 20 || bad >= 25 {
+				break // enough evidence; every further leaking case costs a settle loop
 			}
 		}
 	}
